@@ -17,11 +17,36 @@ def closure(ctx, exe, tag, na, maxn, faults, stray, props):
                expect_states=r.distinct)
 
 
+def term(t):
+    return (1000 if t["k"] == "max" else 0) + t["n"]
+
+
+def arr_line(o):
+    op = o["op"]
+    mask = lambda ok: (0 if ok[0] else 1) | (0 if ok[1] else 2)
+    if op == "alloc": return f"0 {o['a']} {term(o['nm'])} {o['sz']} {mask(o['ok'])}"
+    if op == "set": return f"1 {o['a']} {o['e']} {o['sz']} {mask(o['ok'])}"
+    if op == "slice": return f"2 {o['a']} {term(o['beg'])} {term(o['end'])} {o['s']}"
+    if op == "unslice": return f"3 {o['s']} {o['a']}"
+    if op == "at": return f"6 {o['a']} {term(o['i'])}"
+    one = {"reset": 4, "release": 5, "data": 7, "size": 8}
+    if op in one: return f"{one[op]} {o['a']}"
+    raise HarnessError(f"no driver line for generated operation {o}")
+
+
+def generated(ctx, exe, tag, na, maxn, depth, num, props):
+    """spec -> code: walks of the Arr machine (its own OpSet, failing allocations included, aborting calls left to
+    the closure) chosen by TLC's simulator, replayed into src/array.c"""
+    gen_replay(ctx, tag, "GenArr", "", consts(na) + f"\n  MaxN = {maxn}\n  WithFaults = TRUE", depth, num, arr_line, exe,
+               [na, maxn, 1, 0], "TraceArr", consts(na), props)
+
+
 def run_c14(ctx, props, stray=False):
     exe = build(ctx, "drv_arr", "drv_arr.c", LIB, wrap=WRAP)
     if ctx.quick:
         closure(ctx, exe, "a2n2", 2, 2, True, stray, props)
         if not stray:
+            generated(ctx, exe, "gen-a3n4", 3, 4, 40, 20, props)
             impl_phase(ctx, "rand", exe, ["random", ctx.seed, 2500, 2], [3, 5, 1, 0], "TraceArr", "", consts(3), props)
     else:
         closure(ctx, exe, "a2n3", 2, 3, True, stray, props)
@@ -29,6 +54,7 @@ def run_c14(ctx, props, stray=False):
         closure(ctx, build(ctx, "drv_arr_macro", "drv_arr.c", LIB, wrap=WRAP, defs=["USE_INITIALIZER"]), "a2n2-macro", 2, 2, False, stray, props)
         if not stray:
             closure(ctx, exe, "a3n2", 3, 2, False, False, props)
+            generated(ctx, exe, "gen-a4n6", 4, 6, 80, 150, props)
             impl_phase(ctx, "rand", exe, ["random", ctx.seed, 20000, 3], [4, 12, 1, 0], "TraceArr", "", consts(4), props)
 
 
